@@ -157,8 +157,6 @@ LIST_READERS = [
     Op("repr", lambda t, a: native(repr, t), mut=False, concrete=True),
     Op("str", lambda t, a: native(str, t), mut=False, concrete=True),
     Op("bool", lambda t, a: bool(t), mut=False),
-    Op("index_from", lambda t, a: t.index(a.v, a.i), v=True, i=True, mut=False),
-    Op("index_range", lambda t, a: t.index(a.v, a.i, a.j), v=True, i=True, j=True, mut=False),
 ]
 
 
